@@ -142,7 +142,7 @@ pub fn run(ctx: &Ctx) {
     ctx.require_class("lifetime_steps", &format!("{}|{}|last", hashes[0].name(), "L2-mixedW"));
 
     // pure arithmetic for real heights
-    let maxlen = ctx.tier.pick(4usize, 8usize);
+    let maxlen = ctx.tier.pick(6usize, 8usize);
     let tuples = tuple_count(5, maxlen);
     let salt = ctx.seed;
     ctx.enumerate("arith_tuples_5_25", tuples * SLOTS, true, |i| {
@@ -165,7 +165,7 @@ pub fn run(ctx: &Ctx) {
                     })
                     .boxed()
             },
-            20_000,
+            100_000,
             Opts::default(),
             check_arith,
         );
